@@ -1,7 +1,7 @@
 """seed_mir.py <seed-id> <check,check>: apply a seeded patch to a scratch copy of /repo, re-dump MIR, run the named MIR checks"""
 import sys, os, subprocess, time
 sys.path.insert(0,'/verif/lib')
-import mirsmt, miragg, mirblocks, mirflow, mirpaths, mirload, mirquery, mirorder, mirparse
+import mirsmt, miragg, mirblocks, mirflow, mirpaths, mirload, mirquery, mirorder, mirparse, mirgen
 sid, checks = sys.argv[1], sys.argv[2]
 mut='/tmp/mutsrc'
 subprocess.check_call(['rsync','-rlpc','--delete','--exclude','/target','--exclude','.git','/repo/',mut+'/'])
@@ -10,7 +10,7 @@ mir=mirsmt.dump_mir(mut)
 ob=mirsmt.Obligations(); a=miragg.Agg(mir,mut,ob)
 for name in checks.split(','):
     t0=time.time()
-    f=getattr(mirblocks,name,None) or getattr(mirflow,name,None) or getattr(mirpaths,name,None) or getattr(mirload,name,None) or getattr(mirquery,name,None) or getattr(mirorder,name,None) or getattr(mirparse,name,None)
+    f=getattr(mirblocks,name,None) or getattr(mirflow,name,None) or getattr(mirpaths,name,None) or getattr(mirload,name,None) or getattr(mirquery,name,None) or getattr(mirorder,name,None) or getattr(mirparse,name,None) or getattr(mirgen,name,None)
     try:
         if f: f(a)
         else: getattr(a,name)()
